@@ -159,7 +159,7 @@ func (c *Collection) add(key string, exp Exp, val []byte, isJSON bool) (added bo
 		result, err := txn.Exec(
 			`INSERT INTO documents (collection,key,value,cas,exp,isJSON, revSeqNo) VALUES (?1,?2,?3,?4,?5,?6,?7)
 				ON CONFLICT(collection,key) DO
-					UPDATE SET value=?3, xattrs=null, cas=?4, exp=?5, isJSON=?6
+					UPDATE SET value=?3, xattrs=null, cas=?4, exp=?5, isJSON=?6, tombstone=0
 					WHERE tombstone != 0`,
 			c.id, key, val, newCas, exp, isJSON, 1, revSeqNo)
 		if err != nil {
